@@ -22,7 +22,9 @@ THEOREMS = [
 RULE = ("generated modules: 2-7 Structure classes (annotation and assignment style; inheritance from 1-2 earlier "
         "classes, Partial/Omit/Pick/Extend/AllFieldsRequired bases, ImmutableStructure; _required/_optional/"
         "_additional_properties/_ignore_none/_immutable written or not, incl. chains where a base sets all flags and 1-3 subclasses restate nothing; `import datetime/decimal` with attribute-access field types; typing.Optional and AnyOf/OneOf/AllOf[X, None] fields, defaults, "
-        "Constants, nested collections, enum/reference fields, EVERY Field class exported by the working tree (enumerated from typedpy, typedpy.fields, typedpy.extfields; each once required, once in every non-required form: _required without it, _optional, _required=[], Partial/Omit/Pick/Extend/subclass derived, and mixed into the random stream), overriding of inherited fields, custom __init__), "
+        "Constants (every allowed value type, falsy and truthy incl. zero-valued IntEnum/Flag members; on the class, a base, the "
+        "subclass only and through Partial/Omit/Extend), two bases declaring the same field in every pair of "
+        "required/_optional/default/Constant forms in both orders, nested collections, enum/reference fields, EVERY Field class exported by the working tree (enumerated from typedpy, typedpy.fields, typedpy.extfields; each once required, once in every non-required form: _required without it, _optional, _required=[], Partial/Omit/Pick/Extend/subclass derived, and mixed into the random stream), overriding of inherited fields, custom __init__), "
         "enums, plain classes, dataclasses, functions, module constants; module-level functions, methods (Structure / plain / "
         "dataclass / staticmethod / classmethod) and user-written __init__ (Structure / plain / dataclass) over the product "
         "parameter layout (positional-only, positional, *args, keyword-only after bare * and after *args, **kw, all mixed) x "
@@ -46,14 +48,14 @@ TRUSTED_EXTRA = [
 
 def cases(rng, tier):
     S.reset_work()
-    cs = ([json.loads(json.dumps(c)) for c in S.CORPUS] + S.zoo_cases(rng, tier) + S.sig_cases(rng, tier)
+    cs = ([json.loads(json.dumps(c)) for c in S.CORPUS] + S.zoo_cases(rng, tier) + S.sig_cases(rng, tier) + S.const_cases(rng, tier) + S.mi_cases(rng, tier)
           + S.gen_cases(rng, tier, 450 if tier == "quick" else 6000))
     S.prepare(cs)
     return cs
 
 
 def search_cases(rng, tier):
-    cs = S.zoo_cases(rng, tier) + S.sig_cases(rng, tier) + S.gen_cases(rng, "thorough", 150)
+    cs = S.zoo_cases(rng, tier) + S.sig_cases(rng, tier) + S.const_cases(rng, tier) + S.mi_cases(rng, tier) + S.gen_cases(rng, "thorough", 150)
     S.prepare(cs)
     return cs
 
@@ -305,7 +307,13 @@ def judge(case, impl, model):
         if e not in stub:
             fails.append(("class-missing:enum", f"enum {e} is not declared in the stub"))
         elif stub[e]["assigned"] != members:
-            fails.append(("enum-members", f"enum {e}: stub members {stub[e]['assigned']} != {members}"))
+            it_names = impl.get("enums_iter", {}).get(e)
+            if it_names != members and stub[e]["assigned"] == it_names:
+                fails.append(("enum-members:non-canonical-member-dropped",
+                              f"enum {e}: members {[m for m in members if m not in it_names]} (zero-valued Flag member / "
+                              f"alias: not yielded by iterating the class) are missing in the stub: {stub[e]['assigned']}"))
+            else:
+                fails.append(("enum-members", f"enum {e}: stub members {stub[e]['assigned']} != {members}"))
     for o in impl.get("others", []):
         if o not in stub:
             fails.append(("class-missing:other", f"class {o} is not declared in the stub"))
